@@ -1,6 +1,7 @@
 package main
 
 import (
+	"fmt"
 	"go/ast"
 	"go/token"
 	"go/types"
@@ -280,4 +281,140 @@ func errNoEffectRule(w *World, r *Report, rule string, sel func(fi *FuncInfo) bo
 		}
 	})
 	r.Stats["errnoeffect_methods"] = n
+}
+
+// encRejectRule: an encoder has no error exit of its own. Whatever the constructors and builders can build is a
+// message the encoder must produce; the only error an encoder may hand out is one a child encoder returned. A
+// fresh error constructed inside an encoder ("too large", "unsupported combination") refuses messages by
+// value — typically exactly at a limit (a total of 65535 bytes, the last command code).
+func encRejectRule(w *World, r *Report, rule string, sel func(k *Kind) bool) {
+	n := 0
+	for _, k := range w.KindsL {
+		if k.Marshal == nil || !k.OwnMarshal || !sel(k) {
+			continue
+		}
+		fi := w.FuncOf(k.Marshal)
+		if fi == nil || fi.Decl.Body == nil {
+			continue
+		}
+		n++
+		info := fi.Pkg.TypesInfo
+		bad := token.NoPos
+		what := ""
+		// branches taken when a child step failed: an error built there re-words the child's failure
+		var failBranches []*ast.BlockStmt
+		ast.Inspect(fi.Decl.Body, func(nd ast.Node) bool {
+			if is, ok := nd.(*ast.IfStmt); ok {
+				if be, ok := unparen(is.Cond).(*ast.BinaryExpr); ok && be.Op == token.NEQ {
+					if id, ok := unparen(be.Y).(*ast.Ident); ok && id.Name == "nil" {
+						if eo := identObj(info, be.X); eo != nil && isErrorType(eo.Type()) {
+							failBranches = append(failBranches, is.Body)
+						}
+					}
+				}
+			}
+			return true
+		})
+		inFail := func(p token.Pos) bool {
+			for _, b := range failBranches {
+				if b.Pos() <= p && p <= b.End() {
+					return true
+				}
+			}
+			return false
+		}
+		ast.Inspect(fi.Decl.Body, func(nd ast.Node) bool {
+			if nd != nil && inFail(nd.Pos()) {
+				return false
+			}
+			switch x := nd.(type) {
+			case *ast.CallExpr:
+				if fn := w.calleeOf(info, x); fn != nil && fn.Pkg() != nil {
+					p, nm := fn.Pkg().Path(), fn.Name()
+					if (p == "errors" && nm == "New") || (p == "fmt" && nm == "Errorf") {
+						bad, what = x.Pos(), p+"."+nm
+					}
+				}
+			case *ast.CompositeLit:
+				if t := info.TypeOf(x); t != nil && implementsError(t) {
+					bad, what = x.Pos(), "a value of "+t.String()
+				}
+			}
+			return true
+		})
+		pos := w.Pos(fi.Decl.Pos())
+		if bad != token.NoPos {
+			r.Fail(VViolation, rule, k.Name, "", w.Pos(bad), "the encoder constructs an error of its own ("+what+"): it refuses, by value, a message the constructors and builders can build — every error an encoder returns must be one a child encoder returned")
+		} else {
+			r.OK(rule, k.Name, "", pos, "no error is constructed in the encoder", false)
+		}
+	}
+	r.Stats["encoders_without_own_error"] = n
+}
+
+func implementsError(t types.Type) bool {
+	et := types.Universe.Lookup("error").Type().Underlying().(*types.Interface)
+	return types.Implements(t, et) || types.Implements(types.NewPointer(t), et)
+}
+
+// reparseRule: the parser is re-entered (a message embedded in a message) at most once per decoder. A decoder
+// that calls the entry point twice — a retry on a trimmed window after the first attempt failed — doubles the
+// work at every nesting level: a frame of n nested bundle-add messages costs 2^n.
+func reparseRule(w *World, r *Report, rule string) {
+	entry := w.Funcs["openflow13.Parse"]
+	if entry == nil {
+		r.Fail(VViolation, rule, "openflow13.Parse", "", "-", "parser entry point not found")
+		return
+	}
+	n := 0
+	w.eachModuleFunc(func(fi *FuncInfo) {
+		if fi.Decl.Body == nil || fi.Pkg.Types.Name() != "openflow13" || fi == entry {
+			return
+		}
+		info := fi.Pkg.TypesInfo
+		var sites []token.Pos
+		inLoop := false
+		var walk func(nd ast.Node, loop bool)
+		walk = func(nd ast.Node, loop bool) {
+			ast.Inspect(nd, func(m ast.Node) bool {
+				switch x := m.(type) {
+				case *ast.ForStmt:
+					if x != nd {
+						walk(x.Body, true)
+						return false
+					}
+				case *ast.RangeStmt:
+					if x != nd {
+						walk(x.Body, true)
+						return false
+					}
+				case *ast.CallExpr:
+					if fn := w.calleeOf(info, x); fn != nil && fn == entry.Obj {
+						sites = append(sites, x.Pos())
+						if loop {
+							inLoop = true
+						}
+					}
+				}
+				return true
+			})
+		}
+		walk(fi.Decl.Body, false)
+		if len(sites) == 0 {
+			return
+		}
+		n++
+		pos := w.Pos(sites[0])
+		switch {
+		case len(sites) > 1:
+			r.Fail(VViolation, rule, fi.Key, "", w.Pos(sites[1]), fmt.Sprintf("%d calls of the parser entry point in one decoder: a second attempt on the same bytes doubles the cost at every nesting level (exponential in the depth of embedded messages)", len(sites)))
+		case inLoop:
+			r.Fail(VViolation, rule, fi.Key, "", pos, "the parser entry point is called inside a loop of a decoder: the cost of nested messages is no longer linear in the frame")
+		default:
+			r.OK(rule, fi.Key, "", pos, "one call of the parser entry point, outside any loop", true)
+		}
+	})
+	if n == 0 {
+		r.OK(rule, "openflow13", "", "-", "no decoder re-enters the parser", false)
+	}
 }
